@@ -744,5 +744,22 @@ class ExecutorBase:
             h(Ctx(self, fr, "await " + ast.unparse(node.value)[:60], node))
         return v
 
+    def ev_Yield(self, node, fr):
+        """`yield` in a command generator: an interference point (the contract's on_yield hook checks the guarantee, havocs the
+        shared state and assumes the rely)"""
+        f = fr
+        h = None
+        while f is not None and h is None:
+            h = getattr(f.contract, "on_yield", None) if f.contract is not None else None
+            f = f.parent_env
+        if h is None and getattr(self, "top_contract", None) is not None:
+            h = self.top_contract.on_yield
+        if h is None:
+            raise Unsupported("yield without an on_yield interference contract")
+        from .api import Ctx
+        top = getattr(self, "top_frame", fr)
+        h(Ctx(self, top if top is not None else fr, "yield", node))
+        return SV(NONE, Ty("none"))
+
     def ev_Starred(self, node, fr):
         raise Unsupported("starred expression")
